@@ -32,12 +32,60 @@ def gen_case(rng, nops, variant):
             ops.append([9, rng.randrange(nstreams), rng.random() < 0.4])
     return [variant, ops]
 
+# the shape that matters to replacement: publisher A (consumers), replaced by B (and C) under another spelling,
+# the replaced publishers leaving late, then an end that goes through the registry (shutdown, further publisher, …)
+def reg_shape(rng):
+    sp = SPELL[rng.choice("abc")]
+    ops = []
+    def attach(i):
+        for _ in range(rng.randint(0, 3)):
+            ops.append([7, i, rng.random() < 0.4])
+        if rng.random() < 0.3:
+            ops.append([8, i, rng.random() < 0.4])
+    ops.append([0, rng.choice(sp), rng.random() < 0.5]); ops.append([1, 0]); attach(0)
+    nb = rng.randint(1, 2)
+    for b in range(1, nb + 1):
+        ops.append([0, rng.choice(sp), rng.random() < 0.5]); ops.append([1, b]); attach(b)
+    for a in range(nb):                      # the replaced publishers leave late
+        r = rng.random()
+        if r < 0.6:
+            ops.append([2, a])
+        elif r < 0.75:
+            ops.append([3, a])
+        elif r < 0.85:
+            ops.append([9, a, False])
+    if rng.random() < 0.5:
+        ops.append([4, rng.choice(sp)])
+    if rng.random() < 0.3:
+        attach(nb)
+    r = rng.random()                         # the end
+    if r < 0.6:
+        ops.append([10, 0])
+    elif r < 0.75:
+        ops.append([0, rng.choice(sp), rng.random() < 0.5]); ops.append([1, nb + 1])
+        if rng.random() < 0.5:
+            ops.append([10, 0])
+    elif r < 0.85:
+        ops.append([2, nb])
+    elif r < 0.92:
+        ops.append([9, nb, False])
+    if rng.random() < 0.3:                   # a stray operation somewhere
+        extra = gen_case(rng, 1, [1, 1])[1][0]
+        if extra[0] != 0 and (len(extra) < 2 or not isinstance(extra[1], int) or extra[1] <= nb):
+            ops.insert(rng.randrange(2, len(ops) + 1), extra)
+    return [[1, 1], ops]
+
 def run(ck):
     if not ck.prepare():
         return ck.finish(rule="build failed")
     rng = ck.rng
     n = 4000 if ck.thorough else 400
-    raw = [gen_case(rng, rng.randint(4, 40 if ck.thorough else 14), [1, 1]) for _ in range(3 * n)]
+    def shaped():
+        v, ops = reg_shape(rng)
+        g = next((k for k, sp in SPELL.items() if ops[0][1] in sp), "a")
+        return [v, ops + [[4, rng.choice(SPELL[g])], [5, 0], [6, 0]]]       # what lookup, counts and listing say afterwards
+    raw = [gen_case(rng, rng.randint(4, 40 if ck.thorough else 14), [1, 1]) if rng.random() < 0.75 else shaped()
+           for _ in range(3 * n)]
     import vlib
     wf = vlib.run_driver("C05", "C05_wf", [vlib.vs(c) for c in raw])
     cases = [c for c, w in zip(raw, wf) if w == "1"][:n]     # only live streams are registered
@@ -45,7 +93,8 @@ def run(ck):
     ck.stream("histories", cases, "C05_run", "C05", "C05_ok",
               nontrivial=lambda c: sum(1 for o in c[1] if o[0] == 1) >= 2 and any(o[0] == 4 for o in c[1]),
               sig=lambda c, e, o: "registry-history")
-    return ck.finish(rule="random histories of new/regist/unregist/close/get/count/list/attach/detach/idle-tick/unregist-all over three paths in "
+    return ck.finish(rule="75% random, 25% replacement-shaped (publisher replaced under another spelling, old publisher leaves late, "
+                          "registry-borne end, then lookup / count / list) histories of new/regist/unregist/close/get/count/list/attach/detach/idle-tick/unregist-all over three paths in "
                           "several spellings on the real media package (only live streams are registered: hist_wf); "
                           "non-trivial = at least two registrations and one lookup; the observation ends with the per-stream vector "
                           "(live, successful attaches, Consumer.Close calls recorded by the attached consumers)")
